@@ -160,6 +160,52 @@ Section RFC8017.
       end
     end.
 
+  (* ---- crypto/rsa's handling of PSSOptions.SaltLength, as coded (Go 1.25
+     crypto/rsa/fips.go VerifyPSS / SignPSS, crypto/internal/fips140/rsa
+     pkcs1v22.go emsaPSSVerify, PSSMaxSaltLength).  tink-go passes the key's
+     SaltLengthBytes unchanged as SaltLength (rsassapss_verifier.go,
+     rsassapss_signer.go), and SaltLength 0 is PSSSaltLengthAuto:
+       Verify: the salt length is DETECTED -- after step 9, psLen = index of
+               the first 0x01 octet of DB (none: error), sLen = |DB| - psLen - 1;
+       Sign:   the salt has the maximal length emLen - 2 - hLen.
+     A positive SaltLength is used as sLen. ---- *)
+  Fixpoint index01 (db : bytes) : option nat :=
+    match db with
+    | [] => None
+    | x :: t => if x =? 1 then Some O else match index01 t with Some i => Some (S i) | None => None end
+    end.
+
+  Definition emsa_pss_verify_auto (h : hasht) (mHash EM : bytes) (emBits : nat) : bool :=
+    let hLen := hlen h in
+    let emLen := ((emBits + 7) / 8)%nat in
+    let dbLen := (emLen - hLen - 1)%nat in
+    let DB := clear_top (8 * emLen - emBits)
+                (xorb (firstn dbLen EM) (mgf1 h (firstn hLen (skipn dbLen EM)) dbLen)) in
+    match index01 DB with
+    | None => false
+    | Some psLen => emsa_pss_verify h mHash EM emBits (dbLen - psLen - 1)
+    end.
+
+  (* crypto/rsa.VerifyPSS(pub, hash, digest, sig, &PSSOptions{SaltLength: sl}) *)
+  Definition go_pss_verify (n : bytes) (e : N) (h : hasht) (sl : N) (digest sig : bytes) : bool :=
+    if sl =? 0 then
+      let k := k_octets n in
+      if negb (Nat.eqb (length sig) k) then false else
+      match rsavp1 n e (os2ip sig) with
+      | None => false
+      | Some m =>
+        let emBits := (mod_bits n - 1)%nat in
+        match i2osp ((emBits + 7) / 8) m with
+        | None => false
+        | Some EM => emsa_pss_verify_auto h digest EM emBits
+        end
+      end
+    else rfc_pss_verify n e h sl digest sig.
+
+  (* the salt length crypto/rsa.SignPSS uses for SaltLength sl *)
+  Definition go_pss_salt_len (n : bytes) (h : hasht) (sl : N) : nat :=
+    if sl =? 0 then ((mod_bits n - 1 + 7) / 8 - 2 - hlen h)%nat else N.to_nat sl.
+
   (* the part after the length check, in the shape of Sig.std_pkcs1 / std_pss *)
   Definition rfc_pkcs1_core (n : bytes) (e : N) (h : hasht) (digest sig : bytes) : bool :=
     match rsavp1 n e (os2ip sig) with
